@@ -301,6 +301,12 @@ func c09Templates() []c09Tpl {
 		{"if-deep-4000", `func f(n) {if n == 0 {for true {}}; if f(n - 1) {1} else {2}}; f(4000)`, "", 0, 500},
 		{"index-deep-4000", `func f(n) {if n == 0 {for true {}}; [f(n - 1)][0]; 1}; f(4000)`, "", 0, 500},
 		{"eval-macro-deep", `m = macro(x) {f = func(n) {if n == 0 {return 0}; f(n - 1)}; f(100000); quote(unquote(x) + 1)}; func g(n) {if n == 0 {return eval("m(3)")}; g(n - 1)}; g(100000)`, "depth", 0, 60000},
+		{"slice-deep-3000", `a = [1, 2]; func f(n) {if n == 0 {for true {}}; a[f(n - 1):1]}; f(3000)`, "", 0, 200},
+		{"slicehi-deep-3000", `a = [1, 2]; func f(n) {if n == 0 {for true {}}; a[0:f(n - 1)]}; f(3000)`, "", 0, 200},
+		{"forrange-deep-3000", `func f(n) {if n == 0 {for true {}}; for i = f(n - 1):3 {}}; f(3000)`, "", 0, 200},
+		{"forcount-deep-3000", `func f(n) {if n == 0 {for true {}}; for i = f(n - 1) {}}; f(3000)`, "", 0, 200},
+		{"binop-deep-3000", `func f(n) {if n == 0 {for true {}}; 1 + f(n - 1) * 2}; f(3000)`, "", 0, 200},
+		{"mapkey-deep-3000", `func f(n) {if n == 0 {for true {}}; {f(n - 1): 1}}; f(3000)`, "", 0, 200},
 		{"catch-deep-loop", `func f(n) {if n > 3000 {for true {}}; for 3 {catch(f(n + 1))}; 1}; f(0)`, "", 0, 500},
 		// extensions that build strings: many separators, few bytes of elements
 		{"join-separators", `s = "y" * 1000000; a = [""] * 600; len(join(a, s))`, "mem", 100, 8000},
